@@ -109,7 +109,83 @@ class Types:
                     for it in n.items:
                         if isinstance(it.optional_vars, ast.Name):
                             env.setdefault(it.optional_vars.id, set()).update(self.expr_types(it.context_expr, fi, env))
+                elif isinstance(n, ast.For):
+                    # `for key, klass in TABLE.items()` / `for klass in TABLE.values()` over a constant table of classes (a registry), also
+                    # when the table arrives through a parameter that every caller fills with such a constant
+                    it = n.iter
+                    tgt = None
+                    if isinstance(it, ast.Call) and isinstance(it.func, ast.Attribute) and not it.args and it.func.attr in ('items', 'values'):
+                        base = it.func.value
+                        if it.func.attr == 'items' and isinstance(n.target, ast.Tuple) and len(n.target.elts) == 2 and isinstance(n.target.elts[1], ast.Name):
+                            tgt = n.target.elts[1].id
+                        elif it.func.attr == 'values' and isinstance(n.target, ast.Name):
+                            tgt = n.target.id
+                        if tgt is not None and not env.get(tgt):
+                            cl = self._class_table(base, fi)
+                            if cl:
+                                env.setdefault(tgt, set()).update(('classobj', c) for c in cl)
+            for n in walk_local(fi.node):
+                if isinstance(n, ast.Assign) and len(n.targets) == 1 and isinstance(n.targets[0], ast.Name) and not env.get(n.targets[0].id):
+                    v = n.value
+                    base = v.value if isinstance(v, ast.Subscript) else (
+                        v.func.value if isinstance(v, ast.Call) and isinstance(v.func, ast.Attribute) and v.func.attr == 'get' and v.args else None)
+                    if base is not None:
+                        cl = self._class_table(base, fi)
+                        if cl:
+                            env.setdefault(n.targets[0].id, set()).update(('classobj', c) for c in cl)
         return env
+
+    def _class_table(self, expr, fi: FuncInfo, _depth=0):
+        """The classes a constant registry holds (dict values / list or tuple members), when `expr` is such a constant or a parameter
+        that every call site of `fi` fills with one.  None: not a table of classes."""
+        from .consteval import ConstEval, ClassRef, NotConst
+        if not hasattr(self, '_ce'):
+            self._ce = ConstEval(self.prog)
+
+        def classes_of(val):
+            vals = list(val.values()) if isinstance(val, dict) else list(val) if isinstance(val, (list, tuple, set, frozenset)) else None
+            if not vals or not all(isinstance(v, ClassRef) and v.ci is not None for v in vals):
+                return None
+            return [v.ci for v in vals]
+        if isinstance(expr, ast.Name) and expr.id in fi.all_params and _depth == 0:
+            idx = fi.all_params.index(expr.id)
+            bound = fi.cls is not None and fi.kind in ('method', 'classmethod', 'property', 'setter')
+            found = []
+            for g in self.prog.all_functions():
+                if g.module.generated or isinstance(g.node, ast.Lambda):
+                    continue
+                for c in walk_local(g.node):
+                    if not isinstance(c, ast.Call):
+                        continue
+                    nm = c.func.id if isinstance(c.func, ast.Name) else c.func.attr if isinstance(c.func, ast.Attribute) else None
+                    if nm != fi.name:
+                        continue
+                    if isinstance(c.func, ast.Name):
+                        r = self.prog.resolve_expr(g.module, c.func, None)
+                        if not (r and r[0] == 'def' and r[1] is fi):
+                            continue
+                    pos = idx - (1 if bound else 0)
+                    arg = next((k.value for k in c.keywords if k.arg == expr.id), None)
+                    if arg is None and 0 <= pos < len(c.args) and not any(isinstance(a_, ast.Starred) for a_ in c.args):
+                        arg = c.args[pos]
+                    if arg is None:
+                        return None
+                    try:
+                        val = self._ce.eval(arg, g.module, g.cls, {})
+                    except (NotConst, Exception):
+                        return None
+                    cl = classes_of(val)
+                    if cl is None:
+                        return None
+                    found.extend(cl)
+            return found or None
+        if isinstance(expr, (ast.Name, ast.Attribute)):
+            try:
+                val = self._ce.eval(expr, fi.module, fi.cls, {})
+            except (NotConst, Exception):
+                return None
+            return classes_of(val)
+        return None
 
     # ------------------------------------------------------------ expressions
     def expr_types(self, node, fi: FuncInfo, env=None) -> Set:
@@ -368,6 +444,11 @@ class Types:
                             out.append(('func', sc.methods[name]))
                     if m is None and not any(name in sc.methods for sc in self.prog.subclasses(t, strict=True)):
                         ext = [b for c in self.prog.mro(t) for b in self.prog.external_bases(c) if b not in ('ABC', 'object')]
+                        if not ext and len([x for x in recv if isinstance(x, ClassInfo)]) > 1 and any(
+                                isinstance(x, ClassInfo) and x is not t and self.prog.find_method(x, name) is not None for x in recv):
+                            # a union of receiver classes (a registry that holds several families): a class of the union that has no
+                            # such method and no external base cannot be the receiver of this call
+                            continue
                         out.append(('external', f'{ext[0] if ext else t.name}.{name}'))
                 elif isinstance(t, tuple) and t[0] == 'classobj':
                     known = True
